@@ -5,7 +5,8 @@
  * stdin lines:
  *   E <n_lo> <n_hi> <variant>  enumerate the reduced space for N in n_lo..n_hi,
  *                              write one octet (MAI) per point to stdout
- *   P <hsn> <maio> <n> <fn>    one point, prints "R <arfcn>\n"
+ *   P <hsn> <maio> <n> <fn> [<flags>]  one point, prints "R <arfcn>\n"; flags are or-ed into every
+ *                              entry of the mobile allocation (band / uplink bits of the firmware's ARFCN numbering)
  */
 #include <stdio.h>
 #include <stdlib.h>
@@ -20,6 +21,8 @@ struct l1s_state l1s;
 
 #define MA_BASE 512
 
+static unsigned ma_flags;
+
 static void setup(uint8_t hsn, uint8_t maio, uint8_t n)
 {
 	int i;
@@ -30,7 +33,7 @@ static void setup(uint8_t hsn, uint8_t maio, uint8_t n)
 	l1s.dedicated.h1.maio = maio;
 	l1s.dedicated.h1.n = n;
 	for (i = 0; i < n; i++)
-		l1s.dedicated.h1.ma[i] = MA_BASE + i;
+		l1s.dedicated.h1.ma[i] = (MA_BASE + i) | ma_flags;
 }
 
 static uint16_t point(uint8_t hsn, uint8_t maio, uint8_t n, uint32_t fn)
@@ -70,10 +73,12 @@ int main(void)
 			}
 			fflush(stdout);
 		} else if (line[0] == 'P') {
-			int hsn, maio, n; unsigned fn;
-			if (sscanf(line + 1, "%d %d %d %u", &hsn, &maio, &n, &fn) != 4)
+			int hsn, maio, n; unsigned fn, flags = 0;
+			if (sscanf(line + 1, "%d %d %d %u %u", &hsn, &maio, &n, &fn, &flags) < 4)
 				return 2;
+			ma_flags = flags;
 			printf("R %u\n", point(hsn, maio, n, fn));
+			ma_flags = 0;
 		}
 	}
 	return 0;
